@@ -30,7 +30,7 @@ def run_functions(db, rep, rule, funcs, accept_undecided=True, cache={}):
             rep.analysis_broken("E-BOUNDS failed on %s: %s" % (f["id"], traceback.format_exc()[-600:]))
             continue
         seen = {}
-        for o in sorted(b.obls.values(), key=lambda o: (o.node.get("l", 0), o.node["id"])):
+        for o in sorted(b.obls.values(), key=lambda o: (o.node.get("l", 0), str(o.node["id"]))):
             nob += 1
             base = "%s|%s|%s" % (short_id(f), o.kind, o.text[:70])
             seen[base] = seen.get(base, 0) + 1
